@@ -416,16 +416,25 @@ fn check_c21(tier: &str) -> i32 {
     let hs = enum_histories(depth, if thorough { 3 } else { 2 });
     let total = hs.len();
     let (executed, skipped, bad, cap, errors) = in_children(&hs, 150, if thorough { 1000.0 } else { 45.0 }, &|dir, h| run_history(dir, h));
-    // address book at the WriteAheadLog seam: records appended, restarts, read_all must return
-    // every acknowledged record; folded with the rule of node.rs (last record per peer wins)
+    // address book through node.rs's own functions (see nodebook.rs)
     let mut ab_items: Vec<Vec<u8>> = vec![];
-    for a in 0..3u8 {
-        for b in 0..3u8 {
-            for c in 0..3u8 {
-                ab_items.push(vec![a, b, c]);
+    // every pattern of 3 (thorough 4) steps over {new address, stop+start, kill+start, same address again}
+    let mut cur: Vec<Vec<u8>> = vec![vec![]];
+    for _ in 0..(if thorough { 4 } else { 3 }) {
+        let mut nxt = vec![];
+        for p in cur.iter() {
+            for a in 0..4u8 {
+                let mut x = p.clone();
+                x.push(a);
+                nxt.push(x);
             }
         }
+        cur = nxt;
     }
+    ab_items.extend(cur);
+    // a peer whose address changes twice and is re-asserted, with restarts in between
+    ab_items.push(vec![0, 0, 0, 1, 0, 3, 1]);
+    ab_items.push(vec![0, 0, 0, 0, 2, 3, 0, 1]);
     let (ab_exec, _s, ab_bad, _c, ab_err) = if true {
         in_children(&ab_items, 30, 30.0, &|dir, pat: &Vec<u8>| adapter::address_book_history(dir, pat))
     } else {
@@ -442,7 +451,7 @@ fn check_c21(tier: &str) -> i32 {
         samples,
         cap.is_none(),
         cap.clone(),
-        format!("every history of exactly {} store operations over {{append 1|2 entries (blank / normal / membership payloads), truncate last|last-1, purge first|first+1, save_vote 1|2, save_committed last|None, stop+start, kill+start}} with at least one and at most {} restarts whose operations satisfy the storage API preconditions ({} of {} enumerated histories were applicable), executed on the real WalLogStore; after every operation and every restart get_log_state, read_vote, read_committed and the full entry list are compared with a reference store; plus {} address-book histories at the WriteAheadLog seam", depth, if thorough { 3 } else { 2 }, executed, total, ab_exec),
+        format!("every history of exactly {} store operations over {{append 1|2 entries (blank / normal / membership payloads), truncate last|last-1, purge first|first+1, save_vote 1|2, save_committed last|None, stop+start, kill+start}} with at least one and at most {} restarts whose operations satisfy the storage API preconditions ({} of {} enumerated histories were applicable), executed on the real WalLogStore; after every operation and every restart get_log_state, read_vote, read_committed and the full entry list are compared with a reference store; plus {} address-book histories through the address-book functions of node.rs (cut out of the file at build time: PeerAddrRecord, load_peer_addr_records, append_peer_addr_record, persist_peer_addr_if_needed) over {{new address, same address again, stop+start, kill+start}}", depth, if thorough { 3 } else { 2 }, executed, total, ab_exec),
         vec!["openraft types/traits are stand-ins with the signatures of openraft 0.10 (storage v2); tokio stand-in runs block_in_place inline; bincode stand-in", "octopii's vendored engine copy runs with its real 10 MiB geometry", "kill = handles forgotten without running destructors in the same process (the page cache survives, as for a killed process)"],
         nviol as u64,
         wall,
